@@ -905,3 +905,26 @@ def reach_fields(e, env, depth=6):
                 if df is not None and df.init is not None:
                     work.append((df.init, df.env, d - 1))
     return out
+
+
+def reach_calls(e, env, depth=6):
+    """Names of all functions / methods called on the way to the value of `e` (closure bodies included), through the initialisers of
+    the locals it mentions (bounded)."""
+    out = set()
+    seen = set()
+    work = [(e, env, depth)]
+    while work:
+        x, en, d = work.pop()
+        if x is None or id(x) in seen:
+            continue
+        seen.add(id(x))
+        for n in walk(x):
+            if n["k"] == "MethodCall":
+                out.add(n["method"])
+            elif n["k"] == "Call" and n["func"]["k"] == "Path":
+                out.add(n["func"]["path"].split("::")[-1])
+            elif n["k"] == "Path" and "::" not in n["path"] and en is not None and d > 0:
+                df = en.get(n["path"])
+                if df is not None and df.init is not None:
+                    work.append((df.init, df.env, d - 1))
+    return out
